@@ -38,10 +38,10 @@ type recorder struct {
 	silent       bool // donor connections: no events
 	// sibling (donor) connections whose version write is kept in flight: the
 	// Write call that carries the nonce does not return before release
-	stick    bool
-	released bool
-	onNonce  func() // called once (lock held) when the version nonce is on the wire
-	lastEvent    time.Time
+	stick     bool
+	released  bool
+	onNonce   func() // called once (lock held) when the version nonce is on the wire
+	lastEvent time.Time
 }
 
 func newRecorder(btcnet wire.BitcoinNet) *recorder {
